@@ -1,10 +1,15 @@
 import ICal.Driver.Text
 import ICal.Driver.Fold
+import ICal.Driver.Line
 import ICal.Driver.StartEnd
 import ICal.Driver.Codec
+import ICal.Driver.CDict
+import ICal.Driver.Walk
+import ICal.Driver.Tz
+import ICal.Driver.Alarm
 open ICal.Driver
 
-def handlers : List (String → List String → Option String) := [handleText, handleFold, handleStartEnd, handleCodec]
+def handlers : List (String → List String → Option String) := [handleText, handleFold, handleLine, handleStartEnd, handleCodec, handleCDict, handleWalk, handleTz, handleAlarm]
 
 def step (line : String) : String :=
   let l := line.dropRightWhile (fun c => c == (Char.ofNat 10) || c == (Char.ofNat 13))
